@@ -624,6 +624,65 @@ def h_e2e_response(X, K, tier):
            lambda: X.choose("edit", edits), ctx_tag="interim-1xx-recorded-as-final" if 100 <= status <= 199 else "", suffix=f"/{method.decode()}-{status}")
 
 
+def h_expect_continue(X):
+    """`Expect: 100-continue`, buffered or streamed (addon sets request.stream in requestheaders): the head that reaches
+    the server must carry exactly the fields of the recorded flow (mitmproxy answers the expectation itself), the body
+    must arrive complete, and the flow's response is the server's final response, not an interim one"""
+    framing = X.choose("framing", ["content-length", "chunked"])
+    stream = X.boolean("addon_streams_request")
+    body_with_head = X.boolean("body_in_same_segment")
+    extra = X.choose("extra_field", [None, (b"X-Other", b"v"), (b"expect", b"100-Continue")])
+    lines = [b"POST http://example.com/first HTTP/1.1", b"Host: example.com", b"Expect: 100-continue"]
+    if extra:
+        lines.append(extra[0] + b": " + extra[1])
+    if framing == "content-length":
+        lines.append(b"Content-Length: 5")
+        body = b"hello"
+    else:
+        lines.append(b"Transfer-Encoding: chunked")
+        body = b"5\r\nhello\r\n0\r\n\r\n"
+    head = b"\r\n".join(lines) + b"\r\n\r\n"
+    snaps = {}
+
+    def on_hook(hook):
+        f = hook.args()[0]
+        if hook.name == "requestheaders":
+            if stream:
+                f.request.stream = True
+            snaps["after-requestheaders"] = tuple(f.request.headers.fields)
+        elif hook.name == "response":
+            snaps["response-status"] = f.response.status_code
+        return True
+
+    run = _Run(on_hook)
+    d, ctx = run.d, run.ctx
+    if body_with_head:
+        d.data(ctx.client, head + body)
+    else:
+        d.data(ctx.client, head)
+        d.data(ctx.client, body)
+    X.check(len(d.opened) == 1, "C01/expect/not-forwarded", f"{head!r}: {len(d.opened)} upstream connections; client got {d.sent_to(ctx.client)!r}")
+    srv = d.opened[0]
+    fwd = d.sent_to(srv)
+    msgs, left, err = http1ref.parse_stream(fwd, "request", eof=True)
+    X.check(err is None and len(msgs) == 1 and not left, "C01/expect/forwarded-unparseable", f"forwarded bytes {fwd!r}: {err}, {len(msgs)} messages")
+    m = msgs[0]
+    X.check(m.body == b"hello", "C01/expect/body", f"forwarded body {m.body!r}")
+    recorded = [(n.lower(), v) for n, v in d.hooks_named("requestheaders")[0].request.headers.fields]
+    sent = [(n.lower(), v) for n, v in m.fields if n.lower() not in (b"content-length", b"transfer-encoding")]
+    rec = [(n, v) for n, v in recorded if n not in (b"content-length", b"transfer-encoding")]
+    X.check(sent == rec, "C01/expect/forwarded-head-differs-from-flow", f"stream={stream}: forwarded fields {sent} != recorded flow {rec}")
+    d.data(srv, OK200)
+    X.check(snaps.get("response-status") == 200, "C01/expect/interim-taken-as-final", f"flow's response status {snaps.get('response-status')}")
+    raw = d.sent_to(ctx.client)
+    cm, cleft, cerr = http1ref.parse_stream(raw, "response", [b"POST"], eof=False)
+    finals = [x for x in cm if x.status >= 200]
+    X.check(cerr is None and len(finals) == 1 and finals[0].status == 200 and finals[0].body == b"ok" and len(cm) <= 2, "C01/expect/client-side",
+            f"client received {raw!r} ({cerr})")
+    X.reach("streamed" if stream else "buffered")
+    X.reach("end")
+
+
 def obligations(tier):
     k = 2 if tier == "quick" else 3
     ke = 2  # header slots besides Host (the thorough tier widens menus, methods, versions and body encodings instead)
@@ -635,6 +694,9 @@ def obligations(tier):
         Smt("te-set", _build_te_queries, bounds="all strings; accepted set lifted from the TransferEncoding literal", encoded=ENCODED[2:3]),
         Symx("framing-table", lambda X: h_table(X, k), bounds=f"header lists of <= {k} fields from a {len(FIELDS)}-entry menu ({len(CL_VALUES)} Content-Length shapes, {len(TE_VALUES)} Transfer-Encoding values, case variants, invalid names), request/response, HTTP/1.0/1.1, methods GET/POST/HEAD/CONNECT, status 100/200/204/304",
              encoded=ENCODED[:4], must_reach=["decided", "accepted"], parallel_depth=4),
+        Symx("expect-continue", h_expect_continue,
+             bounds="POST with Expect: 100-continue x {Content-Length, chunked} x addon enables request streaming or not x body in the head's segment or its own x one extra field; server answers 200",
+             encoded=ENCODED, must_reach=["end", "streamed", "buffered"]),
         Symx("e2e-request", lambda X: h_e2e_request(X, ke, tier),
              bounds=f"client stream = 1 request ({'POST' if tier == 'quick' else 'POST/GET'}, HTTP/1.1/1.0, Host + <= {ke} header lines from a {nreq}-line menu incl. CL/TE shapes, obs-fold, bare CR, NUL, "
                     f"Expect, Connection: close) followed by one of {8 if tier == 'quick' else 12} body encodings (raw, chunked with every chunk split of a 5-byte body, extension, trailer, hex size...) "
